@@ -33,7 +33,8 @@ Print Assumptions loop_is_race_free.
    configuration, the observable history satisfies the delivery specification:
    at most once per (dispatch, listener); must-deliver; must-not-deliver;
    a one-shot listener is not called by a later dispatch of the same source;
-   source order; right listener; closed sources stay silent *)
+   source order; right listener; closed sources stay silent; Listeners() is at
+   least the number of listeners certainly registered during the call *)
 Theorem delivery_spec : forall ops evs sched,
   Loop.delivery_spec (obs (log (lrun (init ops evs) sched))).
 Proof. exact delivery_spec_all_schedules. Qed.
